@@ -23,7 +23,7 @@ def run(ctx):
     res.rule("C12-R4", "swapEndian overloads are byte reversal for all values (integer overloads by G4, float overload by "
                         "its byte-assignment body)")
     res.rule("C12-R5", "variable-length parts: the builders write every byte they advance over, so the big-endian length fields and pad bytes of the "
-                        "variable parts are always (re)written (C13-R3)")
+                        "variable parts are always (re)written (C13-R3), and setData writes the header's length field and DLC code for the new length on every path (C13-R1, R2)")
     res.assumptions += ["the layout table /verif/spec/layout.json (written from the protocol formats) is the oracle",
                         "x86-64 little-endian target as compiled; in-range arguments"]
     res.not_decided += ["variable-length data (C13)", "correctness of the oracle table itself"]
@@ -57,7 +57,8 @@ def run(ctx):
     from rules import c13
     sub = c13.run(ctx)
     for o in sub.obligations:
-        if o["rule"] == "C13-R3":
+        if o["rule"] == "C13-R3" or (o["rule"] in ("C13-R1", "C13-R2") and ("setData:" in o["key"] or o["key"] == "encodeDlc")):
+            # (R1/R2: the length and DLC bytes of the CAN / LIN / Ethernet headers are (re)written with the values of this call on every path)
             res.check(o["ok"], "C12-R5", "builders:" + o["key"], o["loc"], o["detail"])
     res.extra["accessor_stats"] = stats
     res.floor("C12-R1", 250)
